@@ -15,7 +15,7 @@ import re
 import sys
 
 from vcommon import Run
-from xhair import Ob, replay_file, run_obligations
+from xhair import Ob, replay_file, run_obligations, run_probes
 
 MFL, RT, SETS, SEARCH = 'C18_mfl.py', 'C18_roundtrip.py', 'C18_sets.py', 'C18_search.py'
 
@@ -213,6 +213,9 @@ def main():
         'create_joint_distribution/fix_parameters at harness import',
     ]
     run_obligations(run, obs)
+    # concrete companions (CrossHair neutralises functools.lru_cache while tracing): enumeration asked twice
+    run_probes(run, [(Ob('partitions[n=3]', 'C18_sets.py', 'parts_ok', env=dict(VH_N=3)), 'parts_ok([1, 2, 3])'),
+                     (Ob('partitions[n=4]', 'C18_sets.py', 'parts_ok', env=dict(VH_N=4)), 'parts_ok([3, 5, 7, 9])')])
     for o in obs[:4] + [x for x in obs if x.name.startswith('finding_')][:4] + obs[-3:]:
         run.sample(dict(obligation=o.name, harness=o.file, func=o.func, env=o.env))
     nfind = sum(1 for o in obs if o.name.startswith('finding_'))
